@@ -90,7 +90,11 @@ gtry::scl::VStream<UInt> gtry::scl::priorityEncoderTree(const UInt& in, bool reg
 	for (size_t i = 0; i < in.size(); i += inBitsPerStep)
 	{
 		const BitWidth clamp{ std::min(inBitsPerStep, in.size() - i) };
-		lowerStep.push_back(priorityEncoderTree(in(i, clamp), registerStep, bps));
+		// with registers per step every chunk must recurse equally deep (a short last chunk would have less latency): pad it with zeros
+		if (registerStep)
+			lowerStep.push_back(priorityEncoderTree(zext(in(i, clamp), BitWidth{ inBitsPerStep }), registerStep, bps));
+		else
+			lowerStep.push_back(priorityEncoderTree(in(i, clamp), registerStep, bps));
 	}
 	setName(lowerStep, "lowerStep");
 
